@@ -443,6 +443,244 @@ def check_description_twins(d1, d2, place, out, stats):
     stats["twins-ok"] = stats.get("twins-ok", 0) + 1
 
 
+# ---- several object classes in one document: each keeps its own default and description ---------------------------------
+# A default "is never dropped, moved to another element, or shared with an unrelated element": what one object schema of a
+# document declares must not depend on which other object schemas stand beside it — in particular not on one that has a
+# different title but the same (or an `==`-equal: 0 / false / 0.0, 1 / true / 1.0) body, default and description.
+CLASS_TITLES = ["BillingAddress", "ShippingAddress", "Retries", "Cache", "Home", "Work", "Alpha", "Beta"]
+CLASS_BODIES = [
+    {},
+    {"properties": {"street": {"type": "string"}, "country": {"type": "string", "default": "GB"}}},
+    {"properties": {"limit": {"type": "integer"}}},
+    {"properties": {"street": {"type": "string"}, "country": {"type": "string", "default": "GB"}}, "required": ["street"]},
+    {"properties": {"limit": {"type": "integer"}}, "additionalProperties": False},
+    {"properties": {"flag": {"type": "boolean", "default": False}, "count": {"type": "integer", "default": 0}}},
+]
+# groups of defaults that Python's `==` cannot tell apart but that are different JSON values, plus ordinary ones
+CLASS_DEFAULT_GROUPS = [
+    [{"limit": 0}, {"limit": False}, {"limit": 0.0}],
+    [{"n": 1}, {"n": True}, {"n": 1.0}],
+    [{"a": [0, 1]}, {"a": [False, True]}, {"a": [0.0, 1.0]}],
+    [0, False, 0.0],
+    [1, True, 1.0],
+    [[], ], [{}, ], [None, ], ["", ],
+    [{"country": "GB"}], [{"country": "FR"}],
+]
+CLASS_DESCRIPTIONS = [None, "A postal address.", "Tuning.", "x", "Line one.\nLine two.", "café ✓"]
+CLASS_PLACES = ("properties", "tuple-items", "branches", "nested", "definitions")
+CLASS_SLOTS = ("direct", "items", "branch")
+_ABSENT = "<absent>"
+
+
+def gen_class_family(rng):
+    """2-4 differently titled object schemas for one document.  With high probability a member is a 'twin' of an earlier
+    one: same body, same description, a default from the same `==`-group (often the very same)."""
+    place = rng.choice(CLASS_PLACES)
+    members = []
+    for title in rng.sample(CLASS_TITLES, rng.randint(2, 4)):
+        kind = "fresh"
+        if members and rng.random() < 0.7:
+            base = rng.choice(members)
+            m = {"title": title, "body": base["body"], "description": base["description"], "group": base["group"]}
+            r = rng.random()
+            if base["group"] is None or r < 0.45:
+                kind = "twin-identical"
+                if "default" in base:
+                    m["default"] = base["default"]
+            elif r < 0.85:
+                kind = "twin-equal-default"
+                m["default"] = core.enc_val(rng.choice(CLASS_DEFAULT_GROUPS[base["group"]]))
+            else:
+                kind = "twin-but-one-keyword"
+                which = rng.choice(("default", "description", "body"))
+                if which == "default":
+                    m["group"] = rng.randrange(len(CLASS_DEFAULT_GROUPS))
+                    m["default"] = core.enc_val(rng.choice(CLASS_DEFAULT_GROUPS[m["group"]]))
+                elif which == "description":
+                    m["description"] = rng.choice(CLASS_DESCRIPTIONS)
+                    if "default" in base:
+                        m["default"] = base["default"]
+                else:
+                    m["body"] = rng.randrange(len(CLASS_BODIES))
+                    if "default" in base:
+                        m["default"] = base["default"]
+        else:
+            m = {"title": title, "body": rng.randrange(len(CLASS_BODIES)), "description": rng.choice(CLASS_DESCRIPTIONS), "group": None}
+            if rng.random() < 0.8:
+                m["group"] = rng.randrange(len(CLASS_DEFAULT_GROUPS))
+                m["default"] = core.enc_val(rng.choice(CLASS_DEFAULT_GROUPS[m["group"]]))
+        m["kind"] = kind
+        m["slot"] = rng.choice(CLASS_SLOTS) if place in ("properties", "nested") else "direct"
+        members.append(m)
+    return {"place": place, "members": members}
+
+
+def _member_schema(m):
+    from harness import dsl
+    s = {"type": "object", "title": m["title"]}
+    s.update(core.copy.deepcopy(CLASS_BODIES[m["body"]]))
+    if m.get("description") is not None:
+        s["description"] = m["description"]
+    if "default" in m:
+        s["default"] = dsl.dec_val(m["default"])
+    return s
+
+
+def _slot_schema(slot, s):
+    return {"direct": s, "items": {"type": "array", "items": s}, "branch": {"anyOf": [s, {"type": "null"}]}}[slot]
+
+
+def _slot_elem(slot, e):
+    return {"direct": lambda: e, "items": lambda: e.items, "branch": lambda: e.elements[0]}[slot]()
+
+
+def _slot_node(doc, slot, node):
+    node = _resolve(doc, node)
+    if slot == "items":
+        return _resolve(doc, node["items"])
+    if slot == "branch":
+        return _resolve(doc, node["anyOf"][0])
+    return node
+
+
+def class_family_document(family):
+    """(schema, elements -> member classes, document -> member nodes) of a family"""
+    members = family["members"]
+    subs = [_slot_schema(m["slot"], _member_schema(m)) for m in members]
+    names = [f"m{i}" for i in range(len(members))]
+    place = family["place"]
+    if place == "properties":
+        schema = {"type": "object", "title": "Outer", "properties": dict(zip(names, subs))}
+        pick = lambda els: [_slot_elem(m["slot"], els[0].properties[n].element) for n, m in zip(names, members)]
+        jpick = lambda doc: [_slot_node(doc, m["slot"], doc["properties"][n]) for n, m in zip(names, members)]
+    elif place == "tuple-items":
+        schema = {"type": "array", "items": subs}
+        pick = lambda els: list(els[0].items)
+        jpick = lambda doc: [_resolve(doc, n) for n in doc["items"]]
+    elif place == "branches":
+        schema = {"title": "Outer", "anyOf": subs + [{"type": "null"}]}
+        pick = lambda els: list(els[0].elements[:len(members)])
+        jpick = lambda doc: [_resolve(doc, n) for n in doc["anyOf"][:len(members)]]
+    elif place == "nested":
+        schema = {"type": "object", "title": "Outer", "properties": {"mid": {"type": "object", "title": "Middle", "properties": dict(zip(names, subs))}}}
+        pick = lambda els: [_slot_elem(m["slot"], els[0].properties["mid"].element.properties[n].element) for n, m in zip(names, members)]
+        jpick = lambda doc: [_slot_node(doc, m["slot"], _resolve(doc, doc["properties"]["mid"])["properties"][n]) for n, m in zip(names, members)]
+    else:       # the first member is used by the root, the others are definitions only (further elements of `parse`)
+        schema = {"type": "object", "title": "Outer", "properties": {"m0": subs[0]}, "definitions": dict(zip(names[1:], subs[1:]))}
+        pick = lambda els: [els[0].properties["m0"].element] + list(els[1:])
+        jpick = lambda doc: [_resolve(doc, doc["properties"]["m0"])] + [doc.get("definitions", {}).get(m["title"]) for m in members[1:]]
+    return schema, pick, jpick
+
+
+def _dangling_refs(doc, node=None, out=None):
+    out = [] if out is None else out
+    node = doc if node is None else node
+    if isinstance(node, dict):
+        ref = node.get("$ref")
+        if isinstance(ref, str) and set(node) == {"$ref"} and ref != "#":
+            target = doc
+            for part in ref[2:].split("/"):
+                target = target.get(part) if isinstance(target, dict) else None
+            if target is None:
+                out.append(ref)
+        for k, v in node.items():
+            if k not in ("default", "const", "enum"):
+                _dangling_refs(doc, v, out)
+    elif isinstance(node, list):
+        for v in node:
+            _dangling_refs(doc, v, out)
+    return out
+
+
+def check_class_family(family, out, stats, drv=None):
+    """Every member of the family: its parsed class has its title, exactly its default (as a JSON value: false is not 0) or
+    none, and its description; the node its use resolves to in the JSON serialization exists and carries the same; so does
+    its generated class once executed."""
+    from statham.schema.constants import NotPassed
+    from statham.schema.elements.meta import ObjectMeta
+    from statham.schema.parser import parse
+    members = family["members"]
+    schema, pick, jpick = class_family_document(family)
+    case = {"class_family": family, "schema": schema}
+    out.note_case(case, True)
+
+    def fail(what):
+        out.failures.append({"case": case, "what": what, "finding": None})
+        stats["oracle-fail-None"] = stats.get("oracle-fail-None", 0) + 1
+
+    def carried(obj):
+        d = getattr(obj, "default", NotPassed())
+        return _ABSENT if isinstance(d, NotPassed) else core.enc_val(d)
+
+    def described(obj):
+        d = getattr(obj, "description", None)
+        return d if isinstance(d, str) else None
+
+    want = [(m["title"], m.get("default", _ABSENT), m.get("description")) for m in members]
+    try:
+        elements = parse(core.copy.deepcopy(schema))
+    except Exception as exc:  # noqa: BLE001
+        fail(f"parse raised {type(exc).__name__}: {exc}")
+        return
+    try:
+        classes = pick(elements)
+        got = [(getattr(c, "__name__", repr(c)), carried(c), described(c)) for c in classes]
+        if got != want or not all(isinstance(c, ObjectMeta) for c in classes):
+            fail(f"the object schemas declare (title, default, description) {want!r}; their parsed classes carry {got!r}")
+            return
+        if len({id(c) for c in classes}) != len(classes):
+            fail("two differently titled object schemas were parsed to one class")
+            return
+        doc = _plain(serialize_json(*elements))
+        dangling = _dangling_refs(doc)
+        if dangling:
+            fail(f"JSON serialization refers to {dangling!r}, which it does not contain: what those object schemas declare "
+                 f"({[w for w in want if any(r.endswith('/' + w[0]) for r in dangling)]!r}) was dropped "
+                 f"(definitions: {sorted(doc.get('definitions', {}))})")
+            return
+        nodes = jpick(doc)
+        jgot = [(n.get("title"), core.enc_val(n["default"]) if "default" in n else _ABSENT, n.get("description")) if isinstance(n, dict) else None
+                for n in nodes]
+        if jgot != want:
+            fail(f"the object schemas declare (title, default, description) {want!r}; their nodes in the JSON serialization carry {jgot!r}")
+            return
+        for title, _, _ in want:
+            if len(_titled(doc, title)) != 1:
+                fail(f"JSON serialization has {len(_titled(doc, title))} nodes titled {title!r}")
+                return
+        src = serialize_python(*elements)
+    except Exception as exc:  # noqa: BLE001
+        fail(f"{type(exc).__name__} escaped from the library: {exc}")
+        return
+    ns = {}
+    try:
+        exec(compile(src, "<generated>", "exec"), ns)  # noqa: S102
+    except Exception as exc:  # noqa: BLE001
+        fail(f"generated Python does not execute: {type(exc).__name__}: {exc}")
+        return
+    pgot = [(t, carried(ns[t]), described(ns[t])) if isinstance(ns.get(t), ObjectMeta) else None for t, _, _ in want]
+    docs = [getattr(ns.get(t), "__doc__", None) for t, _, _ in want]
+    if pgot != want or docs != [w[2] for w in want]:
+        fail(f"the object schemas declare (title, default, description) {want!r}; their generated classes carry {pgot!r}, docstrings {docs!r}")
+        return
+    # correspondence with the Lean model on the same document (parsed tree and serialized document)
+    if drv is not None:
+        try:
+            rep = drv.ask({"op": "parse_serialize", "schema": core.enc_val(schema), "tables": core.schema_tables(schema, [])})
+        except (TypeError, ValueError):
+            rep = None
+        if rep is not None and "error" not in rep and rep.get("parse") == "ok" and rep.get("r") == "ok" and len(elements) == 1:
+            out.traces_validated += 1
+            if rep["json"] != core.enc_val(_plain(serialize_json(elements[0]))):
+                out.disagreements.append({"what": "serialized document", "impl": core.enc_val(doc), "model": rep["json"], **case})
+    stats["class-family-ok"] = stats.get("class-family-ok", 0) + 1
+    stats["class-family-at:" + family["place"]] = stats.get("class-family-at:" + family["place"], 0) + 1
+    for m in members:
+        stats["class-family-member:" + m["kind"]] = stats.get("class-family-member:" + m["kind"], 0) + 1
+        if m["slot"] != "direct":
+            stats["class-family-slot:" + m["slot"]] = stats.get("class-family-slot:" + m["slot"], 0) + 1
+
+
 SHARED_TARGETS = {
     "leaf": lambda: {"type": "string", "maxLength": 9},
     "array": lambda: {"type": "array", "items": {"type": "integer"}},
@@ -561,7 +799,9 @@ def run(ctx, scale=1.0):
                 "titled object of the document looked at; pairs of equally titled, equally shaped objects differing only in "
                 "their description (3 places); a default beside a one-member composition whose member object is shared with another place "
                 "(3 keywords x 8 defaults x 2 orders x 2 targets; the whole default pool x 3 keywords x 3 forms of sharing on an object class, parsed "
-                "element, JSON and executed Python); a case is one (shape, position, default), one description, one pair or one sharing; "
+                "element, JSON and executed Python); families of 2-4 differently titled object classes in one document (5 places x 3 slots), most of them "
+                "twins of one another (same body and description, the same or an ==-equal default: 0/false/0.0), each looked up on the parsed "
+                "tree, through its $ref in the JSON document and in the executed Python; a case is one (shape, position, default), one description, one pair, one sharing or one family; "
                 "all non-trivial; distinct by SHA-256")
     stats = {}
     drv = core.Driver()
@@ -621,6 +861,9 @@ def run(ctx, scale=1.0):
         for shape in SHAPES:
             for d in FALSY[:3] + TRUTHY[:3]:
                 check_shared_node(shape, d, out, stats)
+        # several differently titled object classes in one document, many of them with equal (or `==`-equal) bodies
+        for _ in range(int((150 if ctx["tier"] == "quick" else 3000) * scale)):
+            check_class_family(gen_class_family(rng), out, stats, drv)
     finally:
         drv.close()
     out.stats = stats
@@ -639,7 +882,9 @@ def _replay_case(case):
     out, stats = Outcome(), {}
     drv = core.Driver()
     try:
-        if "twins" in case:
+        if "class_family" in case:
+            check_class_family(case["class_family"], out, stats)
+        elif "twins" in case:
             check_description_twins(case["twins"][0], case["twins"][1], case["place"], out, stats)
         elif "shared_node" in case:
             from harness import dsl as _dsl
